@@ -6,7 +6,7 @@ from hypothesis import strategies as st
 
 from .. import simcheck
 from ..runner import Outcome, call_lcm, case_digest
-from ..strategies import Profile, materialise_agents, model_specs, raw_agents
+from ..strategies import Profile, expand_agents, materialise_agents, model_specs, raw_agents
 from .c01 import model_classes, prepare, sample_of
 
 ID = "C02"
@@ -43,9 +43,12 @@ PROFILE = Profile(name="sim", p_filter=0.7, force_sparse_and_dense_choice=0.35, 
 @st.composite
 def cases(draw, prof=None):
     spec = draw(model_specs(prof or PROFILE))
+    agents = draw(raw_agents(1, 8))
+    if draw(st.integers(0, 9)) == 0:
+        agents = expand_agents(agents, draw(st.integers(130, 300)))
     return {
         "spec": spec.to_json(),
-        "agents": draw(raw_agents(1, 8)),
+        "agents": agents,
         "seed": draw(st.integers(0, 2**31 - 1)),
         "vf_mode": draw(st.sampled_from(["solution", "solution", "arbitrary"])),
         "vf_raw": draw(st.lists(st.integers(-300, 300), min_size=48, max_size=48)),
